@@ -12,7 +12,7 @@ RULE = ("random histories of 8-35 operations biased towards table construction (
         "distinct = canonical JSON of the program; non-trivial = >= 2 structural operations and (a rejected operation "
         "or a zero-row / zero-column table)")
 ASSUMED = []
-MIX = {"vcat": 2, "newvec": 3, "newtab_dict": 6, "newtab_vecs": 4, "copy": 1, "slice": 3, "mask": 2, "colview": 2, "selcols": 2,
+MIX = {"sel2d": 3, "window": 1, "vcat": 2, "newvec": 3, "newtab_dict": 6, "newtab_vecs": 4, "copy": 1, "slice": 3, "mask": 2, "colview": 2, "selcols": 2,
        "stack": 5, "append": 3, "join": 2, "sort": 1, "transpose": 2, "math": 1, "setv": 3, "sett": 5, "setattr": 5,
        "rename": 1, "read": 2, "drop": 1}
 
@@ -43,7 +43,9 @@ def rowappend_cases(rng, n):
     return cs
 
 
-FORMS = ["dict", "vectors", "lists", "empty>>dict", "empty_dict>>dict", "t>>dict", "t>>vector", "t>>list", "t>>table"]
+FORMS = ["dict", "vectors", "lists", "empty>>dict", "empty_dict>>dict", "t>>dict", "t>>vector", "t>>list", "t>>table",
+         # one-shot iterables of columns, through both constructors (Vector(...) of equal-length vectors is a table)
+         "Table(gen)", "Vector(gen)", "Vector(map)", "Vector(tuple)", "Table(iter)", "Vector(vectors)"]
 
 
 def construct_cases(rng, n):
@@ -82,6 +84,18 @@ def _observe_construct(case):
                 r = Table([Vector(c, name=nm) for nm, c in zip(names, cols)])
             elif form == "lists":
                 r = Table([list(c) for c in cols])
+            elif form == "Table(gen)":
+                r = Table(Vector(c, name=nm) for nm, c in zip(names, cols))
+            elif form == "Vector(gen)":
+                r = Vector(Vector(c, name=nm) for nm, c in zip(names, cols))
+            elif form == "Vector(map)":
+                r = Vector(map(Vector, cols))
+            elif form == "Vector(tuple)":
+                r = Vector(tuple(Vector(c, name=nm) for nm, c in zip(names, cols)))
+            elif form == "Table(iter)":
+                r = Table(iter([Vector(c, name=nm) for nm, c in zip(names, cols)]))
+            elif form == "Vector(vectors)":
+                r = Vector([Vector(c, name=nm) for nm, c in zip(names, cols)])
             elif form == "empty>>dict":
                 r = Table() >> d
             elif form == "empty_dict>>dict":
